@@ -1,6 +1,7 @@
 package lint
 
 import (
+	"go/token"
 	"fmt"
 	"strings"
 
@@ -284,15 +285,38 @@ func runC09(c *Ctx) {
 		setVal := func(in ssa.Instruction) bool {
 			return StoreToField("itemWithBackoff", "Value")(in) && p.Desc(in.(*ssa.Store).Val) == "param#2" && strings.Contains(p.Desc(in.(*ssa.Store).Addr), "index(")
 		}
-		found := p.EdgeSuccs(f, "ne(call:slices.IndexFunc(*),const:-1)")
+		// (slices.IndexFunc and its predicate are inlined by the normal form: "the key exists" is the true edge
+		// of the Key == key comparison of the search loop)
+		found := p.EdgeSuccs(f, "eq(*.Key,param#1)")
 		c.NoReach("R09.8", "existing key: no return before the value was overwritten (when overwriteValue)", f, found, 1, IsReturn, CutSpec{Nodes: setVal, Edges: FactEdge("false(param#4)")})
 		c.MustCut("R09.8", "in-place overwrite ⊣ {overwriteValue}", f, setVal, CutSpec{Edges: FactEdge("true(param#4)")}, 1)
-		c.MustCut("R09.8", "early `return false` (keep the entry) ⊣ {new time is later than the existing one}", f, p.RetIs(0, "const:false"), CutSpec{Edges: FactEdge("gt(call:(time.Time).Compare(param#3,*),const:0)")}, 1)
+		c.MustCut("R09.8", "early `return false` (keep the entry) ⊣ {new time is later than the existing one}", f, p.RetIs(0, "const:false"),
+			CutSpec{Nodes: p.CallTo("slices.Insert*"), Edges: FactEdge("gt(call:(time.Time).Compare(param#3,*),const:0)")}, 1)
 
 		okRet := false
 
+		// the result is `idx == -1`, idx being -1 exactly when the search loop ran out (every other incoming
+		// value of idx is a loop index, hence not negative)
 		for _, in := range Find(f, IsReturn) {
-			if d := p.Desc(in.(*ssa.Return).Results[0]); Glob("(call:slices.IndexFunc(*)==const:-1)", d) {
+			bo, ok := in.(*ssa.Return).Results[0].(*ssa.BinOp)
+			if !ok || bo.Op != token.EQL || p.Desc(bo.Y) != "const:-1" {
+				continue
+			}
+
+			sentinel, others := 0, 0
+
+			for _, l := range phiLeavesAll(bo.X) {
+				switch {
+				case p.Desc(l) == "const:-1":
+					sentinel++
+				case lowerBound(l) >= 0:
+					others++
+				default:
+					others = -100
+				}
+			}
+
+			if sentinel == 1 && others >= 1 {
 				okRet = true
 			}
 		}
